@@ -96,6 +96,12 @@ fn content(id: i64, outside: bool, sizes: &HashMap<i64, usize>) -> Vec<u8> {
 }
 
 fn content_default(id: i64, outside: bool) -> Vec<u8> {
+    if outside {
+        // the marker recurs every few bytes, so that any 64-byte piece of an outside file is recognised
+        let unit = [CANARY_MARK, format!(":{}:", id).as_bytes()].concat();
+        let n = 600 + ((id as u64).wrapping_mul(2654435761) % 1500) as usize;
+        return unit.iter().cycle().take(n).cloned().collect();
+    }
     let mut v = Vec::new();
     if outside {
         v.extend_from_slice(CANARY_MARK);
@@ -192,6 +198,14 @@ struct Got {
     loc: Vec<u8>,
     canary: bool,
     panic: bool,
+    q: Vec<u8>,    // the query string the request carried on the wire ("" = none)
+}
+
+impl Got {
+    /// media type of the Content-Type without parameters, lower case (for the judge; `ct` stays byte-exact)
+    fn ctb(&self) -> String {
+        self.ct.split(';').next().unwrap_or("").trim().to_ascii_lowercase()
+    }
 }
 
 fn find(hay: &[u8], needle: &[u8]) -> bool {
@@ -200,7 +214,7 @@ fn find(hay: &[u8], needle: &[u8]) -> bool {
 
 fn project(w: &World, r: Result<Response, ()>) -> Got {
     match r {
-        Err(_) => Got { st: 0, id: 0, ct: String::new(), loc: vec![], canary: false, panic: true },
+        Err(_) => Got { st: 0, id: 0, ct: String::new(), loc: vec![], canary: false, panic: true, q: vec![] },
         Ok(resp) => {
             let st: u16 = resp.status_code.into();
             let id = match w.by_content.get(&resp.body) {
@@ -216,6 +230,7 @@ fn project(w: &World, r: Result<Response, ()>) -> Got {
                 loc: resp.headers.get(HeaderType::Location).unwrap_or("").as_bytes().to_vec(),
                 canary: find(&resp.body, CANARY_MARK),
                 panic: false,
+                q: vec![],
             }
         }
     }
@@ -255,6 +270,35 @@ fn conforms(e: &Value, uri: &[u8], g: &Got) -> bool {
     a.len() >= 6 && conforms_one(a[3].as_str().unwrap(), a[4].as_i64().unwrap(), a[5].as_str().unwrap(), uri, g)
 }
 
+/// LocOk in StaticFs.tla: the path of the Location is the request path followed by "/"; an origin in front and the
+/// request's query behind are admitted
+fn loc_ok(uri: &[u8], q: &[u8], loc: &[u8]) -> bool {
+    let mut l = loc;
+    for scheme in [&b"http://"[..], &b"https://"[..]] {
+        if l.starts_with(scheme) {
+            let rest = &l[scheme.len()..];
+            l = match rest.iter().position(|c| *c == b'/') { Some(i) => &rest[i..], None => &[] };
+            break;
+        }
+    }
+    let plain = [uri, b"/"].concat();
+    l == &plain[..] || (!q.is_empty() && l == &[&plain[..], b"?", q].concat()[..])
+}
+
+/// JudgeOk in StaticFs.tla: dm = [kind, id, extension bytes] is what the STATEMENT demands for this request
+fn judge_ok(dm: &Value, uri: &[u8], g: &Got, accepted: &HashMap<Vec<u8>, Vec<String>>) -> bool {
+    if g.canary { return false; }
+    match dm[0].as_str().unwrap_or("-") {
+        "f" => {
+            let x = bytes_of(&dm[2]);
+            g.st == 200 && Some(g.id) == dm[1].as_i64() && (x.is_empty() || accepted.get(&x).map_or(false, |v| v.contains(&g.ctb())))
+        }
+        "r" => g.st == 301 && loc_ok(uri, &g.q, &g.loc),
+        "n" => g.st == 404 && g.id == 0,
+        _ => true,
+    }
+}
+
 fn got_json(g: &Got) -> Value {
     json!({"st": g.st, "id": g.id, "ct": g.ct, "loc": String::from_utf8_lossy(&g.loc), "canary": g.canary, "panic": g.panic})
 }
@@ -269,7 +313,9 @@ struct Tally {
     nontrivial: u64,
     mism: u64,
     canary_hits: u64,
+    drifts: u64,
     first: Vec<Value>,
+    first_drift: Vec<Value>,
     samples: Vec<Value>,
 }
 
@@ -281,11 +327,15 @@ fn replay<B: Backend>(scratch: &str, threads: usize) {
     let mut vectors: Vec<Value> = vec![];
     let mut pending: Vec<Value> = vec![];
     let mut sizes = default_sizes();
+    let mut accepted: HashMap<Vec<u8>, Vec<String>> = HashMap::new();
     for line in stdin_lines() {
         let v: Value = match serde_json::from_str(&line) { Ok(v) => v, Err(_) => continue };
         if v.get("world").is_some() {
             pending.push(v);
         } else if v.get("routes").is_some() {
+            if let Some(a) = v.get("accepted").and_then(|x| x.as_array()) {
+                accepted = a.iter().map(|p| (bytes_of(&p[0]), p[1].as_array().unwrap().iter().map(|t| t.as_str().unwrap().to_string()).collect())).collect();
+            }
             if let Some(a) = v.get("sizes").and_then(|x| x.as_array()) {
                 sizes = a.iter().map(|p| (p[0].as_i64().unwrap(), p[1].as_u64().unwrap() as usize)).collect();
             }
@@ -310,14 +360,16 @@ fn replay<B: Backend>(scratch: &str, threads: usize) {
     let nostar = Arc::new(nostar);
     let vectors = Arc::new(vectors);
     let cat = Arc::new(cat);
+    let accepted = Arc::new(accepted);
     let nthreads = threads.max(1);
     let mut handles = vec![];
     for t in 0..nthreads {
         let (worlds, routes, nostar, vectors, cat) = (worlds.clone(), routes.clone(), nostar.clone(), vectors.clone(), cat.clone());
+        let accepted = accepted.clone();
         handles.push(std::thread::spawn(move || {
             let hs: Vec<B> = worlds.iter().map(|w| B::new(&w.root_dir)).collect();
             let offered = B::handlers();
-            let mut ta = Tally { lines: 0, evals: 0, nontrivial: 0, mism: 0, canary_hits: 0, first: vec![], samples: vec![] };
+            let mut ta = Tally { lines: 0, evals: 0, nontrivial: 0, mism: 0, canary_hits: 0, drifts: 0, first: vec![], first_drift: vec![], samples: vec![] };
             let mut i = t;
             while i < vectors.len() {
                 let v = &vectors[i];
@@ -339,22 +391,31 @@ fn replay<B: Backend>(scratch: &str, threads: usize) {
                         interesting = true;
                     }
                     // (handler, route, uri, expectation)
-                    let mut calls: Vec<(&str, Vec<u8>, Vec<u8>, &Value)> = vec![];
+                    // what the statement itself demands (StaticFs 3e); older vector files have no demand: nothing is demanded
+                    let silent = json!(["-", 0, []]);
+                    let jd = v.get("jd").map(|a| &a[wi]).unwrap_or(&silent);
+                    let jf = v.get("jf").map(|a| &a[wi]).unwrap_or(&silent);
+                    // under a route prefix that does not end in a slash the path starts with one slash of its own
+                    let js = v.get("js").map(|a| &a[wi]).unwrap_or(&silent);
+                    // (handler, route, uri, strict expectation, demand of the statement)
+                    let mut calls: Vec<(&str, Vec<u8>, Vec<u8>, &Value, &Value)> = vec![];
                     for route in routes.iter() {
                         let mut uri = prefix_of(route);
                         uri.extend_from_slice(&rel);
-                        calls.push(("serve_dir", route.clone(), uri.clone(), ed));
-                        calls.push(("directory", route.clone(), uri, ed));
+                        let dm = if prefix_of(route).last() == Some(&b'/') { jd } else { js };
+                        calls.push(("serve_dir", route.clone(), uri.clone(), ed, dm));
+                        calls.push(("directory", route.clone(), uri, ed, dm));
                     }
                     if rel.is_empty() {
-                        // a route without wildcard only ever sees itself
-                        calls.push(("serve_dir", nostar.to_vec(), nostar.to_vec(), ed));
-                        calls.push(("directory", nostar.to_vec(), nostar.to_vec(), ed));
+                        // a route without wildcard only ever sees itself; the statement does not say whether that is the
+                        // directory "without trailing slash" (301) or its index: only the strict reading (index) is noted
+                        calls.push(("serve_dir", nostar.to_vec(), nostar.to_vec(), ed, &silent));
+                        calls.push(("directory", nostar.to_vec(), nostar.to_vec(), ed, &silent));
                     }
                     let mut uri = vec![b'/'];
                     uri.extend_from_slice(&rel);
-                    calls.push(("file_path", vec![], uri, ef));
-                    for (ci, (h, route, uri, e)) in calls.iter().enumerate() {
+                    calls.push(("file_path", vec![], uri, ef, jf));
+                    for (ci, (h, route, uri, e, dm)) in calls.iter().enumerate() {
                         if !offered.contains(h) { continue; }
                         let uri_s = match std::str::from_utf8(uri) { Ok(s) => s, Err(_) => continue };   // a Request uri is a String
                         let route_s = std::str::from_utf8(route).unwrap();
@@ -362,12 +423,20 @@ fn replay<B: Backend>(scratch: &str, threads: usize) {
                         let g = call(&hs[wi], w, h, route_s, uri_s, alt);
                         ta.evals += 1;
                         if g.canary { ta.canary_hits += 1; }
-                        if !conforms(e, uri, &g) {
+                        if !judge_ok(dm, uri, &g, &accepted) {
+                            // the statement of the property is not met: a violation
                             ta.mism += 1;
                             if ta.first.len() < 40 {
                                 let dev = if *h == "file_path" && !g.panic && x[0].as_u64() == Some(g.st as u64) && x[1].as_i64() == Some(g.id) { "FilePathNoCheck" } else { "" };
                                 ta.first.push(json!({"world": w.ix, "handler": h, "route": route_s, "uri": uri_s, "uri_bytes": uri,
-                                    "dir_with_trailing_slash": alt, "expected": e, "got": got_json(&g), "dev": dev, "vector": v}));
+                                    "dir_with_trailing_slash": alt, "demanded": dm, "expected": e, "got": got_json(&g), "dev": dev, "vector": v}));
+                            }
+                        } else if !conforms(e, uri, &g) {
+                            // admitted by the statement, different from the strict reading (today's choices): a drift note
+                            ta.drifts += 1;
+                            if ta.first_drift.len() < 10 {
+                                ta.first_drift.push(json!({"world": w.ix, "handler": h, "route": route_s, "uri": uri_s,
+                                    "demanded": dm, "strict_expectation": e, "got": got_json(&g), "vector": v}));
                             }
                         } else if ta.samples.len() < 3 && e[0].as_str() != Some("x") && e[0].as_str() != Some("n") && rel.len() > 6 && (i / nthreads) % 97 == 0 {
                             ta.samples.push(json!({"world": w.ix, "handler": h, "route": route_s, "uri": uri_s, "expected": e, "got": got_json(&g)}));
@@ -379,7 +448,7 @@ fn replay<B: Backend>(scratch: &str, threads: usize) {
             ta
         }));
     }
-    let mut tot = Tally { lines: 0, evals: 0, nontrivial: 0, mism: 0, canary_hits: 0, first: vec![], samples: vec![] };
+    let mut tot = Tally { lines: 0, evals: 0, nontrivial: 0, mism: 0, canary_hits: 0, drifts: 0, first: vec![], first_drift: vec![], samples: vec![] };
     for h in handles {
         let ta = h.join().expect("worker");
         tot.lines += ta.lines;
@@ -387,6 +456,8 @@ fn replay<B: Backend>(scratch: &str, threads: usize) {
         tot.nontrivial += ta.nontrivial;
         tot.mism += ta.mism;
         tot.canary_hits += ta.canary_hits;
+        tot.drifts += ta.drifts;
+        for f in ta.first_drift { if tot.first_drift.len() < 10 { tot.first_drift.push(f); } }
         for f in ta.first { if tot.first.len() < 40 { tot.first.push(f); } }
         for s in ta.samples { if tot.samples.len() < 6 { tot.samples.push(s); } }
     }
@@ -395,6 +466,7 @@ fn replay<B: Backend>(scratch: &str, threads: usize) {
     }
     out_line(&json!({"summary": true, "lines": tot.lines, "worlds": worlds.len(), "evaluations": tot.evals, "nontrivial": tot.nontrivial,
         "mismatches": tot.mism, "canary_hits": tot.canary_hits, "first": tot.first, "samples": tot.samples,
+        "drifts": tot.drifts, "first_drift": tot.first_drift,
         "requests_via_real_parser": VIA_PARSER.load(std::sync::atomic::Ordering::Relaxed), "requests_built_by_hand": BY_HAND.load(std::sync::atomic::Ordering::Relaxed)}));
 }
 
@@ -575,6 +647,9 @@ fn random<B: Backend>(nworlds: usize, per_world: usize, scratch: &str, worlds_ou
         }
         for (ri, rel) in rels.iter().enumerate() {
             let route = routes[(ri + wi) % routes.len()].as_bytes().to_vec();
+            // under a prefix that does not end in a slash (`/s*`, `/dü*`) the natural request has a slash of its own
+            let slashed: Vec<u8>;
+            let rel = if prefix_of(&route).last() != Some(&b'/') && (ri / routes.len()) % 2 == 0 { slashed = [b"/".to_vec(), rel.clone()].concat(); &slashed } else { rel };
             for h in ["serve_dir", "directory", "file_path"] {
                 if !B::handlers().contains(&h) { continue; }
                 let (route_b, uri): (Vec<u8>, Vec<u8>) = if h == "file_path" {
@@ -591,8 +666,7 @@ fn random<B: Backend>(nworlds: usize, per_world: usize, scratch: &str, worlds_ou
                 if h == "directory" && B::handlers().contains(&"directory_cached") { rounds.push("directory_cached"); rounds.push("directory_cached"); }
                 for hh in rounds {
                     let g = call(&hs, &w, hh, route_s, uri_s, alt);
-                    out_line(&json!({"w": wi, "h": h, "route": route_b, "uri": uri, "st": g.st, "id": g.id, "ct": g.ct,
-                        "loc": g.loc, "canary": g.canary || g.panic}));
+                    out_line(&record(wi, h, &route_b, &uri, &g, false));
                 }
             }
         }
@@ -609,8 +683,7 @@ fn random<B: Backend>(nworlds: usize, per_world: usize, scratch: &str, worlds_ou
                 let order: Vec<&Vec<u8>> = if (ni + wi) % 2 == 0 { vec![&base, &with, &with2, &base, &with] } else { vec![&with, &base, &with2, &with, &base] };
                 for uri in order {
                     let g = call(&hs, &w, "directory_cached", std::str::from_utf8(&route).unwrap(), std::str::from_utf8(uri).unwrap(), false);
-                    out_line(&json!({"w": wi, "h": "directory", "route": route, "uri": uri, "st": g.st, "id": g.id, "ct": g.ct,
-                        "loc": g.loc, "canary": g.canary || g.panic}));
+                    out_line(&record(wi, "directory", &route, uri, &g, false));
                 }
             }
         }
@@ -621,8 +694,7 @@ fn random<B: Backend>(nworlds: usize, per_world: usize, scratch: &str, worlds_ou
             for (ci, cfg) in cfgs.iter().enumerate() {
                 let uri = if ci % 2 == 0 { b"/".to_vec() } else { [b"/".to_vec(), rels[(ci * 7) % rels.len()].clone()].concat() };
                 let g = call(&hs, &w, "serve_file", std::str::from_utf8(cfg).unwrap(), std::str::from_utf8(&uri).unwrap(), false);
-                out_line(&json!({"w": wi, "h": "serve_file", "route": cfg, "uri": uri, "st": g.st, "id": g.id, "ct": g.ct,
-                    "loc": g.loc, "canary": g.canary || g.panic}));
+                out_line(&record(wi, "serve_file", cfg, &uri, &g, false));
             }
         }
         let _ = std::fs::remove_dir_all(PathBuf::from(scratch).join(format!("w{}", wi)));
@@ -649,7 +721,7 @@ fn rerun<B: Backend>(scratch: &str, worlds_in: &str) {
         let (w, b) = match worlds.get(&wi) { Some(x) => x, None => continue };
         if !B::handlers().contains(&h.as_str()) { continue; }
         let g = call(b, w, &h, std::str::from_utf8(&route).unwrap(), std::str::from_utf8(&uri).unwrap(), false);
-        out_line(&json!({"w": wi, "h": h, "route": route, "uri": uri, "st": g.st, "id": g.id, "ct": g.ct, "loc": g.loc, "canary": g.canary || g.panic}));
+        out_line(&record(wi, &h, &route, &uri, &g, false));
     }
     for (ix, _) in worlds.iter() {
         let _ = std::fs::remove_dir_all(PathBuf::from(scratch).join(format!("w{}", ix)));
@@ -789,12 +861,13 @@ fn e2e<B: Backend>(scratch: &str, worlds_out: &str, ix: usize) {
                     Some(_) => 0,
                     None => if find(&body, FILE_MARK) || find(&body, CANARY_MARK) { -1 } else { 0 },
                 };
-                Got { st, id, ct, loc, canary: find(&body, CANARY_MARK), panic: false }
+                Got { st, id, ct, loc, canary: find(&body, CANARY_MARK), panic: false, q: target[uri.len()..].iter().skip(1).cloned().collect() }
             }
-            None => Got { st: 0, id: 0, ct: String::new(), loc: vec![], canary: false, panic: true },
+            None => Got { st: 0, id: 0, ct: String::new(), loc: vec![], canary: false, panic: true, q: vec![] },
         };
-        out_line(&json!({"w": ix, "h": h, "route": route, "uri": uri, "st": g.st, "id": g.id, "ct": g.ct, "loc": g.loc,
-            "canary": g.canary || g.panic, "late_ms": late}));
+        let mut rec = record(ix, h, &route, &uri, &g, true);
+        rec["late_ms"] = json!(late);
+        out_line(&rec);
     }
     let _ = std::fs::remove_dir_all(top);
     std::process::exit(0);                                        // the App has no handle to stop it
@@ -803,16 +876,25 @@ fn e2e<B: Backend>(scratch: &str, worlds_out: &str, ix: usize) {
 pub static VIA_PARSER: std::sync::atomic::AtomicU64 = std::sync::atomic::AtomicU64::new(0);
 pub static BY_HAND: std::sync::atomic::AtomicU64 = std::sync::atomic::AtomicU64::new(0);
 
+/// one trace record (every field always present)
+fn record(wi: usize, h: &str, route: &[u8], uri: &[u8], g: &Got, growth: bool) -> Value {
+    json!({"w": wi, "h": h, "route": route, "uri": uri, "q": g.q, "st": g.st, "id": g.id, "ct": g.ct, "ctb": g.ctb(), "loc": g.loc,
+           "canary": g.canary, "panic": g.panic, "growth": growth})
+}
+
 fn call<B: Backend>(b: &B, w: &World, h: &str, route: &str, uri: &str, alt: bool) -> Got {
     use std::sync::atomic::Ordering::Relaxed;
+    let sent_query = std::cell::RefCell::new(Vec::<u8>::new());
     let r = std::panic::catch_unwind(std::panic::AssertUnwindSafe(|| {
         // every fourth uri travels with a query string full of dot-dot segments: it is not part of the path
         let query = if fnv64(uri.as_bytes()) % 4 == 0 { Some("next=/../../canary.txt&p=%2e%2e%2f") } else { None };
         let (req, parsed) = request_via(b, uri, query);
-        if parsed { VIA_PARSER.fetch_add(1, Relaxed); } else { BY_HAND.fetch_add(1, Relaxed); }
+        if parsed { VIA_PARSER.fetch_add(1, Relaxed); *sent_query.borrow_mut() = req.query.as_bytes().to_vec(); } else { BY_HAND.fetch_add(1, Relaxed); }
         b.call(h, route, req, alt)
     }));
-    project(w, r.map_err(|_| ()))
+    let mut g = project(w, r.map_err(|_| ()));
+    g.q = sent_query.into_inner();
+    g
 }
 
 pub fn main_with<B: Backend>() {
